@@ -10,6 +10,8 @@ import (
 	"sort"
 	"strings"
 
+	"github.com/indexsupply/shovel/shovel"
+	"github.com/indexsupply/shovel/shovel/config"
 	"github.com/jackc/pgx/v5"
 
 	"verif/harness/fakepg"
@@ -304,11 +306,15 @@ type c12Scenario struct {
 	addrs    [][]byte
 	addrPool [][]byte // ref scenarios: shared pool of every address-valued field
 	refSet   map[string]bool
+	refSet2  map[string]bool // contents of the referenced table's second column ("who2"; direct path only)
 	agg      string
 }
 
-func (sc *c12Scenario) look(_ string, _ string, v fakepg.Value) bool {
+func (sc *c12Scenario) look(_ string, col string, v fakepg.Value) bool {
 	b, _ := v.([]byte)
+	if col == "who2" {
+		return sc.refSet2[string(b)]
+	}
 	return sc.refSet[string(b)]
 }
 
@@ -532,7 +538,7 @@ func c12Build(r *vk.RNG, o c12Opts) *c12Scenario {
 	if o.ref > 0 {
 		sc.ref = &model.Decl{Name: namePoolIG[1], Enabled: true, Table: namePoolTbl[1], ColTypes: map[string]string{}, InFilter: map[string]model.Filter{}}
 		sc.ref.Sources = []model.SrcRef{{Name: namePoolSrc[0], Start: 1}}
-		sc.ref.Block = []model.BlockField{{Name: "tx_signer", Column: "who", ColType: "bytea"}}
+		sc.ref.Block = []model.BlockField{{Name: "tx_signer", Column: "who", ColType: "bytea"}, {Name: "tx_to", Column: "who2", ColType: "bytea"}}
 	}
 
 	// chain
@@ -707,18 +713,28 @@ func (sc *c12Scenario) aggSpellingRefused(c *vk.Case, err error) bool {
 func c12Filter(r *vk.RNG, sc *c12Scenario, s *c12Site, obs []fakepg.Value) model.Filter {
 	if s.useRef || (sc.o.ref == 1 && s.kind == "bytes" && r.Chance(1, 4)) {
 		op := vk.Pick(r, []string{"contains", "contains", "!contains"})
+		col := "who"
 		if sc.o.ref == 1 {
-			// random referenced-table contents: some observed values, some absent ones
+			// random referenced-table contents: some observed values, some absent ones; two columns of the one
+			// referenced table hold different sets (a lookup is about a column, not about the table)
+			set := sc.refSet
+			if r.Bool() {
+				col = "who2"
+				if sc.refSet2 == nil {
+					sc.refSet2 = map[string]bool{}
+				}
+				set = sc.refSet2
+			}
 			for _, v := range obs {
 				if b, ok := v.([]byte); ok && r.Bool() {
-					sc.refSet[string(b)] = true
+					set[string(b)] = true
 				}
 			}
 			for i := r.Intn(3); i > 0; i-- {
-				sc.refSet[string(r.Bytes(20))] = true
+				set[string(r.Bytes(20))] = true
 			}
 		}
-		return model.Filter{Op: op, Ref: &model.Ref{Integration: sc.ref.Name, Column: "who"}}
+		return model.Filter{Op: op, Ref: &model.Ref{Integration: sc.ref.Name, Column: col}}
 	}
 	if sc.o.pushRef && s.name == "log_addr" {
 		// complete addresses of emitting contracts: a restriction that looks legitimate
@@ -1216,11 +1232,27 @@ type refConn struct {
 	lookups    int
 	bad        []string
 	asked      map[string]bool
+	// second column of the same table
+	col2   string
+	set2   map[string]bool
+	asked2 map[string]bool
 }
 
 func (rc *refConn) QueryRow(_ context.Context, q string, args ...any) pgx.Row {
 	rc.lookups++
 	m := reRefQuery.FindStringSubmatch(q)
+	if m != nil && rc.col2 != "" && strings.Trim(m[1], `"`) == rc.table && strings.Trim(m[2], `"`) == rc.col2 && len(args) == 1 {
+		if x, ok := args[0].([]byte); ok {
+			if rc.asked2 == nil {
+				rc.asked2 = map[string]bool{}
+			}
+			rc.asked2[string(x)] = true
+			if rc.set2[string(x)] {
+				return boolRow{true}
+			}
+			return noRow{}
+		}
+	}
 	if m == nil || strings.Trim(m[1], `"`) != rc.table || strings.Trim(m[2], `"`) != rc.col || len(args) != 1 {
 		rc.bad = append(rc.bad, q)
 		return noRow{}
@@ -1250,6 +1282,7 @@ func c12Run(c *vk.Case) {
 	switch {
 	case c.Index == 0:
 		c12Catalogue(c)
+		c12StoredAgg(c)
 	case c.Index == 1:
 		c12Probes(c)
 	case c.Index == 2:
@@ -1306,7 +1339,7 @@ func c12DirectRun(c *vk.Case, sc *c12Scenario, sample bool) {
 	if sc.d.FilterAgg != sc.agg {
 		c.Obs("filter_agg_other_case_accepted", 1)
 	}
-	rc := &refConn{table: refTable, col: "who", set: sc.refSet}
+	rc := &refConn{table: refTable, col: "who", set: sc.refSet, col2: "who2", set2: sc.refSet2}
 	_, err, p = directInsert(dest, rc, sc.chainID, ethBlocks(blocks))
 	c.Obs("direct_inserts", 1)
 	switch {
@@ -1345,17 +1378,25 @@ func c12DirectRun(c *vk.Case, sc *c12Scenario, sample bool) {
 	}
 	// the referenced table changes between two batches of the same running destination: every looked-up value
 	// flips its membership; the second batch (the same blocks again) must be judged against the table as it is now
-	if sc.ref == nil || len(rc.asked) == 0 || len(c.Res.Violations) > 0 {
+	if sc.ref == nil || len(rc.asked)+len(rc.asked2) == 0 || len(c.Res.Violations) > 0 {
 		return
 	}
-	flipped := map[string]bool{}
+	if len(rc.asked2) > 0 {
+		c.Obs("lookups_on_second_column_of_referenced_table", int64(len(rc.asked2)))
+	}
+	flipped, flipped2 := map[string]bool{}, map[string]bool{}
 	for k := range rc.asked {
 		if !sc.refSet[k] {
 			flipped[k] = true
 		}
 	}
-	sc.refSet = flipped
-	rc2 := &refConn{table: refTable, col: "who", set: flipped}
+	for k := range rc.asked2 {
+		if !sc.refSet2[k] {
+			flipped2[k] = true
+		}
+	}
+	sc.refSet, sc.refSet2 = flipped, flipped2
+	rc2 := &refConn{table: refTable, col: "who", set: flipped, col2: "who2", set2: flipped2}
 	_, err, p = directInsert(dest, rc2, sc.chainID, ethBlocks(blocks))
 	c.Obs("direct_inserts_after_reference_change", 1)
 	detail = merge(detail, map[string]any{"phase": "second batch through the same destination after every looked-up value changed its membership in the referenced table"})
@@ -2021,5 +2062,101 @@ func c12Probes(c *vk.Case) {
 			}
 		}
 		note(fmt.Sprintf("gt 0 on an int64 input: %s; negative values emitted=%v (true = filter ignored)", out, neg > 0))
+	}
+}
+
+// c12StoredAgg: an integration the dashboard stored reaches the manager after config.CheckUserInput alone (it never
+// passes ValidateFix) and is decoded again from its stored JSON. Whatever spelling of filter_agg that gate accepts
+// must combine the filters the way the lower-case word does. Four logs (both filters accept / only the first / only
+// the second / neither) make "and", "or" and the default distinguishable.
+func c12StoredAgg(c *vk.Case) {
+	r := c.R
+	keep := append([]byte{0xAA}, r.Bytes(19)...)
+	other := append([]byte{0xBB}, r.Bytes(19)...)
+	fields := []refmodel.Field{{Name: "a", Type: refmodel.Address(), Indexed: true, Column: "a"}, {Name: "v", Type: refmodel.Uint(64), Column: "v"}}
+	mk := func(a []byte, v int64) simnode.Log {
+		return model.MakeLog("Probe", fields, []any{a, big.NewInt(v)}, r.Bytes(20))
+	}
+	blk := &simnode.Block{Num: 5, Hash: r.Bytes(32), Parent: r.Bytes(32), Time: 1}
+	blk.Txs = []simnode.Tx{{Hash: r.Bytes(32), From: r.Bytes(20), To: r.Bytes(20), Logs: []simnode.Log{mk(keep, 50), mk(keep, 3), mk(other, 60), mk(other, 4)}}}
+	for i := range blk.Txs[0].Logs {
+		blk.Txs[0].Logs[i].Idx = uint64(i)
+	}
+	for _, spelled := range []string{"and", "AND", "And", "or", "OR", "Or", ""} {
+		ig := map[string]any{
+			"name": "ig-stored", "enabled": true, "sources": []any{map[string]any{"name": "src-a"}}, "filter_agg": spelled,
+			"table": map[string]any{"name": "t_stored", "columns": []any{
+				map[string]any{"name": "a", "type": "bytea"}, map[string]any{"name": "v", "type": "numeric"}, map[string]any{"name": "log_idx", "type": "int"}, map[string]any{"name": "abi_idx", "type": "int2"}}},
+			"block": []any{map[string]any{"name": "log_idx", "column": "log_idx"}, map[string]any{"name": "abi_idx", "column": "abi_idx"}},
+			"event": map[string]any{"name": "Probe", "type": "event", "anonymous": false, "inputs": []any{
+				map[string]any{"indexed": true, "name": "a", "type": "address", "column": "a", "filter_op": "eq", "filter_arg": []any{"0x" + hex.EncodeToString(keep)}},
+				map[string]any{"name": "v", "type": "uint64", "column": "v", "filter_op": "gt", "filter_arg": []any{"10"}},
+			}},
+		}
+		raw, _ := json.Marshal(ig)
+		var decoded config.Integration
+		if err := json.Unmarshal(raw, &decoded); err != nil {
+			c.Inconclusive("stored integration does not decode: %v", err)
+			return
+		}
+		c.Obs("stored_aggregation_probes", 1)
+		if err := config.CheckUserInput(config.Root{Integrations: []config.Integration{decoded}}); err != nil {
+			c.Obs("stored_aggregation_refused_by_gate", 1)
+			continue
+		}
+		// what the database hands back on the next start
+		stored, _ := json.Marshal(decoded)
+		var reloaded config.Integration
+		if err := json.Unmarshal(stored, &reloaded); err != nil {
+			c.Inconclusive("stored integration does not decode again: %v", err)
+			return
+		}
+		var (
+			dest shovel.Destination
+			err  error
+			pn   *panicInfo
+		)
+		func() {
+			defer func() {
+				if rr := recover(); rr != nil {
+					pn = capturePanic(rr)
+				}
+			}()
+			dest, err = shovel.NewDestination(reloaded)
+		}()
+		if pn != nil || err != nil {
+			c.Seen("stored_aggregation_notes", fmt.Sprintf("filter_agg %q: destination not built: %v %v", spelled, err, pn))
+			continue
+		}
+		rc := &refConn{}
+		if _, err, pn := directInsert(dest, rc, 1, ethBlocks([]*simnode.Block{blk})); err != nil || pn != nil {
+			c.Seen("stored_aggregation_notes", fmt.Sprintf("filter_agg %q: insert: %v %v", spelled, err, pn))
+			continue
+		}
+		got := map[int64]bool{}
+		vi := -1
+		for i, n := range rc.cols {
+			if n == "v" {
+				vi = i
+			}
+		}
+		for _, row := range rc.rows {
+			if vi >= 0 {
+				if sv, ok := storedValue(row[vi], "numeric"); ok {
+					if b, ok := sv.(*big.Int); ok {
+						got[b.Int64()] = true
+					}
+				}
+			}
+		}
+		want := map[int64]bool{50: true}
+		if strings.ToLower(spelled) != "and" {
+			want = map[int64]bool{50: true, 3: true, 60: true}
+		}
+		c.Evals(1)
+		if fmt.Sprint(got) != fmt.Sprint(want) {
+			c.Violate(fmt.Sprintf("stored-integration:filter-agg:spelled=%s", spelled), map[string]any{"integration": string(stored), "rows_with_v": fmt.Sprint(got), "expected_v": fmt.Sprint(want)},
+				"an integration stored with filter_agg %q (accepted by the dashboard's check) emits the logs with v in %v; the word means %v", spelled, got, want)
+		}
 	}
 }
